@@ -581,41 +581,78 @@ PROGRAMS = {
 # evaluation
 # ---------------------------------------------------------------------------------------------
 def _fcl_reference_distance(A, B):
-    """What python-fcl itself answers on geometry built from the *oracle's* data (convex: hull of the world
-    vertices of the single piece; non-convex: the input mesh mapped by the oracle's own affine map).  Used only
-    to attribute a wrong minimumDistanceTo to the third-party library: the attribution holds only if Scenic's
-    number equals this one."""
+    """What python-fcl itself answers on geometry built from the *oracle's* data (convex: hull of the vertices of
+    the single piece; non-convex: the input mesh mapped by the oracle's own affine map).  Used only to attribute a
+    wrong minimumDistanceTo to the third-party library: the attribution holds only if Scenic's number equals one
+    of these.  FCL's GJK answer depends on the frame the vertices are given in, so both usages are reproduced:
+    world-frame vertices with identity transform, and local (scaled) vertices with a rigid transform."""
     import fcl
     from rt import geomgen as gg
+    from rt import geomoracle as go
     from scipy.spatial import ConvexHull
 
-    def geom(o):
-        if o.spec.convex:
-            V = np.ascontiguousarray(o.world()[0].V)
-            hull = ConvexHull(V)
-            # outward-oriented triangles
-            tris = []
-            c = V.mean(axis=0)
-            for simplex, eq in zip(hull.simplices, hull.equations):
-                i, j, k = simplex
-                n = np.cross(V[j] - V[i], V[k] - V[i])
-                if n @ eq[:3] < 0:
-                    j, k = k, j
-                tris.append((3, i, j, k))
-            faces = np.array(tris, dtype=np.int64).flatten()
-            return fcl.Convex(V, len(tris), faces)
-        mesh = gg.registry.MESHES[o.spec.mesh_id]
-        M, t = gg.raw_to_world(o.spec, o.dims, o.pos, o.ypr)
-        V = np.ascontiguousarray(np.asarray(mesh.vertices) @ M.T + t)
+    def convex(V):
+        V = np.ascontiguousarray(V)
+        hull = ConvexHull(V)
+        tris = []
+        for simplex, eq in zip(hull.simplices, hull.equations):
+            i, j, k = simplex
+            n = np.cross(V[j] - V[i], V[k] - V[i])
+            if n @ eq[:3] < 0:
+                j, k = k, j
+            tris.append((3, i, j, k))
+        return fcl.Convex(V, len(tris), np.array(tris, dtype=np.int64).flatten())
+
+    def bvh(V, faces):
         g = fcl.BVHModel()
-        g.beginModel(num_tris_=len(mesh.faces), num_vertices_=len(V))
-        g.addSubModel(V, np.asarray(mesh.faces))
+        g.beginModel(num_tris_=len(faces), num_vertices_=len(V))
+        g.addSubModel(np.ascontiguousarray(V), np.asarray(faces))
         g.endModel()
         return g
 
-    oa = fcl.CollisionObject(geom(A), fcl.Transform())
-    ob = fcl.CollisionObject(geom(B), fcl.Transform())
-    return fcl.distance(oa, ob)
+    def obj(o, local):
+        R = go.rotation(*o.ypr)
+        if o.spec.convex:
+            if local:
+                Vl = o.spec.unit.pieces[0].V * np.asarray(o.dims)
+                return fcl.CollisionObject(convex(Vl), fcl.Transform(R, np.asarray(o.pos, dtype=float)))
+            return fcl.CollisionObject(convex(o.world()[0].V), fcl.Transform())
+        mesh = gg.registry.MESHES[o.spec.mesh_id]
+        M, t = gg.raw_to_world(o.spec, o.dims, o.pos, o.ypr)
+        if local:
+            Ml = np.linalg.inv(R) @ M
+            tl = np.linalg.inv(R) @ (t - np.asarray(o.pos, dtype=float))
+            return fcl.CollisionObject(bvh(np.asarray(mesh.vertices) @ Ml.T + tl, mesh.faces), fcl.Transform(R, np.asarray(o.pos, dtype=float)))
+        return fcl.CollisionObject(bvh(np.asarray(mesh.vertices) @ M.T + t, mesh.faces), fcl.Transform())
+
+    out = []
+    for la in (False, True):
+        for lb in (False, True):
+            out.append(fcl.distance(obj(A, la), obj(B, lb)))
+    return out
+
+
+def _fcl_pair_is_feasible_not_minimal(a, b, A, B, d):
+    """Second confirmation of the GJK over-estimate: ask FCL (on the very collision objects Scenic uses) for the
+    pair of points realising its distance; if both points lie on the oracle's solids and are d apart, geometry and
+    transforms are right and only FCL's minimisation stopped early."""
+    import fcl
+
+    try:
+        oa = fcl.CollisionObject(*a.occupiedSpace._fclData)
+        ob = fcl.CollisionObject(*b.occupiedSpace._fclData)
+        res = fcl.DistanceResult()
+        dd = fcl.distance(oa, ob, fcl.DistanceRequest(enable_nearest_points=True), res)
+        p1, p2 = (np.asarray(p, dtype=float) for p in res.nearest_points)
+    except Exception:  # noqa
+        return False
+    if abs(dd - d) > 1e-9 + 1e-9 * abs(d):
+        return False
+    Aw, Bw = A.world(), B.world()
+    tol = 1e-6
+    on_a = max(P.contains_point_margin(p1) for P in Aw) >= -tol
+    on_b = max(P.contains_point_margin(p2) for P in Bw) >= -tol
+    return bool(on_a and on_b and abs(float(np.linalg.norm(p1 - p2)) - d) <= 1e-6 + 1e-6 * d)
 
 
 def _as_plain_boxes(A, B):
@@ -654,8 +691,8 @@ def classify(kind, detail):
         # wholly inside the other's material the surfaces do not touch and a positive distance is reported.
         # Confirmed when FCL run on the oracle's own geometry reports the same number.
         if (not A.spec.convex) or (not B.spec.convex):
-            ref = _fcl_reference_distance(A, B)
-            if abs(ref - detail["d"]) <= 1e-6 + 1e-3 * abs(ref):  # (FCL's GJK answers move by ~1e-5 relative with vertex order)
+            refs = _fcl_reference_distance(A, B)
+            if any(abs(ref - detail["d"]) <= 1e-6 + 1e-3 * abs(ref) for ref in refs):  # (GJK answers move by ~1e-5 relative with vertex order)
                 return "mindist.surface-distance-when-enclosed"
         return None
     if kind == "mindist_bracket":
@@ -663,8 +700,10 @@ def classify(kind, detail):
         # distance between two points that do lie on the two objects but are not the closest pair (an
         # over-estimate).  Confirmed when FCL run on the oracle's own geometry reports the same number.
         if (A.spec.convex or B.spec.convex) and detail["over"] and detail["general"]:
-            ref = _fcl_reference_distance(A, B)
-            if abs(ref - detail["d"]) <= 1e-6 + 1e-3 * abs(ref):  # (FCL's GJK answers move by ~1e-5 relative with vertex order)
+            refs = _fcl_reference_distance(A, B)
+            if any(abs(ref - detail["d"]) <= 1e-6 + 1e-3 * abs(ref) for ref in refs):
+                return "mindist.fcl-gjk-overestimate"
+            if _fcl_pair_is_feasible_not_minimal(detail["a"], detail["b"], A, B, detail["d"]):
                 return "mindist.fcl-gjk-overestimate"
     return None
 
@@ -830,7 +869,7 @@ def run_program(seed, shard, index, tr, res, bump, only_case=None):
             if not (lo - tol <= d <= hi + tol):
                 bump("disagreements")
                 relerr = max(lo - d, d - hi) / max(hi, 1e-12)
-                key = classify("mindist_bracket", {"A": A, "B": B, "d": d, "planar_exit": desc["exits_dist"] == ["planar_2d"], "over": d > hi, "general": desc["exits_dist"] == ["general"]})
+                key = classify("mindist_bracket", {"A": A, "B": B, "a": a, "b": b, "d": d, "planar_exit": desc["exits_dist"] == ["planar_2d"], "over": d > hi, "general": desc["exits_dist"] == ["general"]})
                 viol(case, f"[{meta['stratum']}] {A.spec.kind}/{B.spec.kind} minimumDistanceTo = {d:.9g} outside the certified bracket [{lo:.9g}, {hi:.9g}] (relative error {relerr:.2g}) exits={desc['exits_dist']}", desc, key)
         # shortcut-free re-evaluation: plain MeshVolumeRegions of the world meshes
         if k % 3 == 0 and truth is not None:
